@@ -426,5 +426,88 @@ def gen_basic(repo, out):
 SECTIONS.append(gen_basic)
 
 
+# ---------------------------------------------------------------- html_render_diff / html_links_diff section
+def gen_render(repo, out):
+    rel = 'web_monitoring_diff/html_render_diff.py'
+    tree = _read(repo, rel)
+    asg = _module_assigns(tree)
+    env = {}
+    for name in ('block_level_tags', 'void_tags', 'empty_tags', 'undiffable_content_tags', 'SEPARATABLE_TAGS', 'ACTIVE_ELEMENTS',
+                 'no_change_children_tags'):
+        vals = _str_seq(_last(asg, name, rel), name, env)
+        env[name] = vals
+        keep_order = name in ('void_tags', 'empty_tags', 'ACTIVE_ELEMENTS')
+        out.append(f'Definition {name.lower()} : list (list N) :=\n  {cstr_list(vals if keep_order else sorted(set(vals)))}.')
+    ms = _last(asg, 'MAX_SPACERS', rel)
+    if not (isinstance(ms, ast.Constant) and isinstance(ms.value, int)):
+        raise TableError('MAX_SPACERS: expected an integer literal')
+    out.append(f'Definition max_spacers : N := {ms.value}.')
+    out.append(f'Definition empty_html : list N := {cstr(_const_str(_last(asg, "EMPTY_HTML", rel), "EMPTY_HTML"))}.')
+    # SPACER_STRING and the ~EMPTY~ spacer inside _customize_tokens
+    ct = _find_func(tree, '_customize_tokens', rel)
+    spacer = None
+    empties = set()
+    for n in ast.walk(ct):
+        if isinstance(n, ast.Assign) and len(n.targets) == 1 and isinstance(n.targets[0], ast.Name) and n.targets[0].id == 'SPACER_STRING':
+            spacer = _const_str(n.value, 'SPACER_STRING')
+        if isinstance(n, ast.Call) and isinstance(n.func, ast.Name) and n.func.id == 'SpacerToken' and n.args \
+                and isinstance(n.args[0], ast.Constant):
+            empties.add(n.args[0].value)
+    if spacer is None or len(empties) != 1:
+        raise TableError('_customize_tokens: SPACER_STRING / the empty-link spacer literal not found')
+    out.append(f'Definition spacer_string : list N := {cstr(spacer)}.')
+    out.append(f'Definition empty_spacer_string : list N := {cstr(sorted(empties)[0])}.')
+    # InsensitiveSequenceMatcher.threshold
+    ism = _find_class(tree, 'InsensitiveSequenceMatcher', rel)
+    th = _class_assign(ism, 'threshold', rel)
+    if not (isinstance(th, ast.Constant) and isinstance(th.value, int)):
+        raise TableError('InsensitiveSequenceMatcher.threshold: expected an integer literal')
+    out.append(f'Definition matcher_threshold : N := {th.value}.')
+    # URL rules and comparator patterns
+    ur = _find_class(tree, 'UrlRules', rel)
+    rules = _class_assign(ur, 'RULES', rel)
+    if not isinstance(rules, ast.Dict):
+        raise TableError('UrlRules.RULES: expected a dict literal')
+    pairs = []
+    for k, v in zip(rules.keys, rules.values):
+        if not isinstance(v, ast.Name):
+            raise TableError('UrlRules.RULES: values must be class names')
+        pairs.append((_const_str(k, 'RULES key'), v.id))
+    out.append('Definition url_rules : list (list N * list N) :=\n  [' + ';\n   '.join('(%s, %s)' % (cstr(k), cstr(v)) for k, v in pairs) + '].')
+    for cname in ('WaybackUrlComparator', 'WaybackUkUrlComparator', 'ServletSessionUrlComparator'):
+        c = _find_class(tree, cname, rel)
+        pat, flags = _re_compile_args(_class_assign(c, 'matcher', rel), cname + '.matcher')
+        if flags:
+            raise TableError(f'{cname}.matcher: unexpected flags')
+        out.append(f'Definition {cname.lower()}_matcher_src : list N := {cstr(_const_str(pat, cname))}.')
+        bases = [b.id for b in c.bases if isinstance(b, ast.Name)]
+        out.append(f'Definition {cname.lower()}_bases : list (list N) := {cstr_list(bases)}.')
+    for name in ('split_words_re', 'start_whitespace_re'):
+        pat, flags = _re_compile_args(_last(asg, name, rel), name)
+        out.append(f'Definition {name}_src : list N := {cstr(_const_str(pat, name))}.')
+
+    rel2 = 'web_monitoring_diff/html_links_diff.py'
+    tree2 = _read(repo, rel2)
+    asg2 = _module_assigns(tree2)
+    ci = _last(asg2, 'CHANGE_INFO', rel2)
+    if not isinstance(ci, ast.Dict):
+        raise TableError('CHANGE_INFO: expected a dict literal')
+    rows = []
+    for k, v in zip(ci.keys, ci.values):
+        if isinstance(k, ast.UnaryOp) and isinstance(k.op, ast.USub):
+            key = -k.operand.value
+        else:
+            key = k.value
+        d = {}
+        for kk, vv in zip(v.keys, v.values):
+            d[_const_str(kk, 'CHANGE_INFO')] = vv.value if isinstance(vv, ast.Constant) else None
+        rows.append((key, d.get('symbol') or '', d.get('title')))
+    out.append('Definition change_info : list (Z * (list N * option (list N))) :=\n  [' + ';\n   '.join(
+        '((%d)%%Z, (%s, %s))' % (k, cstr(sym), 'Some ' + cstr(t) if t is not None else 'None') for k, sym, t in rows) + '].')
+
+
+SECTIONS.append(gen_render)
+
+
 if __name__ == '__main__':
     sys.exit(main(sys.argv))
